@@ -439,7 +439,7 @@ fn fresh_name(rng: &mut Rng, used: &mut Vec<String>, prefix: &str) -> String {
 fn local_name(rng: &mut Rng, used: &mut Vec<String>) -> String {
     match rng.below(12) {
         0 => {
-            let n = rng.pick(&["time", "exit", "printi", "printc", "readi", "readc", "clearAll", "setPixel"]).to_string();
+            let n = rng.pick(&["time", "exit", "printi", "printc", "readi", "readc", "clearAll", "setPixel", "main"]).to_string();
             if !used.contains(&n) {
                 used.push(n.clone());
                 return n;
